@@ -119,6 +119,9 @@ def _judge(doc: dict, out: dict, injected: bool) -> tuple[str, dict | None]:
         if diffs:
             kind = "compiles" if diffs[0].startswith("fallback text does not compile") else "op-for-op"
             return "inexact", {"clause": f"fallback-{kind}", "injected": injected, "diff": diffs[0][:160]}
+        mdiffs = sut.fallback_map_differences(doc, text, out["ok"]["source_map"])
+        if mdiffs:
+            return "inexact", {"clause": "fallback-source-map-describes-the-text", "injected": injected, "diff": mdiffs[0][:160]}
         return "fallback", None
     return "structured", None
 
